@@ -40,6 +40,8 @@ type Config struct {
 	Program    *Program  `json:"program,omitempty"` // replay: the program to run sequentially
 	Conc       *ConcCfg  `json:"conc,omitempty"`
 	Crash      *CrashCfg `json:"crash,omitempty"`
+	Cache      *CacheCfg `json:"cache,omitempty"`
+	Clustered  bool      `json:"clustered"`             // cache mode: several processes sharing a RESP (Redis protocol) L2 cache
 	BackendOut string    `json:"backend_out,omitempty"` // also record the backend-call trace (SopCommitTrace)
 }
 
@@ -64,6 +66,10 @@ func main() {
 		runFault(cfg)
 	case "replay":
 		runReplay(cfg)
+	case "cache":
+		runCache(cfg)
+	case "cacheworker":
+		runCacheWorker(cfg)
 	case "life":
 		runLife(cfg)
 	case "stores":
@@ -132,9 +138,20 @@ func runReplay(cfg Config) {
 	folder := filepath.Join(cfg.Data, "replay")
 	os.RemoveAll(folder)
 	env := sopenv.New(folder, decor.NewHub())
-	env.Hub.Record = false
+	env.Hub.Record = cfg.BackendOut != ""
 	r := &Runner{Env: env, Rec: &Recorder{}, MaxTime: 2 * time.Minute}
+	if cfg.BackendOut != "" {
+		defer func() { decor.WriteNDJSON(cfg.BackendOut, env.Hub.Take()) }()
+	}
 	for ti, spec := range p.Txns {
+		if spec.Mode == "clearl2" { // cache perturbation step (C20 reproductions)
+			env.L2.Clear(ctx)
+			continue
+		}
+		if spec.Mode == "observe" {
+			r.Observe(ctx, &p)
+			continue
+		}
 		if _, err := r.RunTxn(ctx, fmt.Sprintf("t%d", ti+1), &p, spec, nil); err != nil {
 			r.Rec.Add(Ev{Ev: "HarnessError", Note: errs(err)})
 			break
